@@ -52,21 +52,21 @@ TEXT = {
 
  'C13': dict(engine='pbt', design_ref='DESIGN.md 5/C13',
    technique='property-based testing with boundary-placed texts against an independent UTF encoder; truncation enumeration; bounded-progress counter for hangs',
-   level_text='~5*10^5 generated streams per quick run: texts sized and composed so that 2/3/4-byte and surrogate-pair characters straddle the reader chunk boundary, in 5 encodings with/without BOM, read through CEncodedStreamReader for three target widths and three chunk sizes from ordinary and short-read streambufs; cut at arbitrary bytes under both policies; written through CEncodedStreamWriter; detected by DetectEncoding; and foreign-encoded CSV/JSON/XML documents loaded through the archive stream entry points.',
+   level_text='~5*10^5 generated streams per quick run: texts sized and composed so that 2/3/4-byte and surrogate-pair characters straddle the reader chunk boundary, in 5 encodings with/without BOM, read through CEncodedStreamReader for three target widths and three chunk sizes from ordinary and short-read streambufs; cut at arbitrary bytes under both policies; written through CEncodedStreamWriter; detected by DetectEncoding; foreign-encoded CSV/JSON/XML documents loaded through the archive stream entry points, and CSV/JSON/XML saved to streams in every encoding x BOM x compact/pretty compared byte for byte with BOM + reference encoding.',
    level_note=_NOTE),
 
  'C06': dict(engine='sweep+pbt', design_ref='DESIGN.md 5/C06',
    technique='exhaustive sweep + property-based testing with an independent strict MessagePack decoder and an independently derived expected tree',
-   level_text='Every 8/16-bit integer of every integer type and every format threshold is written and decoded by an independent spec decoder; ~4*10^4 generated typed values per quick run (87 model types) must decode to exactly the independently derived data model (member order, counts, bin for bytes, Timestamp with 0 <= ns < 10^9), use the most compact format at every node, and be byte-identical from memory and stream.',
+   level_text='Every 8/16-bit integer of every integer type and every format threshold is written and decoded by an independent spec decoder; ~4*10^4 generated typed values per quick run (96 model types) must decode to exactly the independently derived data model (member order, counts, bin for bytes, Timestamp with 0 <= ns < 10^9), use the most compact format at every node, and be byte-identical from memory and stream.',
    level_note=_NOTE),
  'C07': dict(engine='pbt', design_ref='DESIGN.md 5/C07',
    technique='differential property-based testing: independent encoder with adversarial format choice -> library reader vs independent reference decoder; truncation and byte corruption',
-   level_text='~5*10^4 documents per quick run are produced by an independent encoder that picks any legal format per node and any key order, and loaded through both readers into typed targets and arbitrary-shape trees (IsEnd-driven arrays): the delivered value must equal what the specification assigns; strict prefixes must be rejected with a SerializationException; after a single-byte corruption the loader must deliver exactly what the reference decoder reads from the corrupted bytes, or reject.',
+   level_text='~5*10^4 documents per quick run are produced by an independent encoder that picks any legal format per node and any key order, and loaded through both readers into typed targets and arbitrary-shape trees (IsEnd-driven arrays): the delivered value must equal what the specification assigns, also when the document holds members the target does not list (every ext size class) or map keys the target key type cannot take under the Skip policies; strict prefixes must be rejected with a SerializationException; after a single-byte corruption the loader must deliver exactly what the reference decoder reads from the corrupted bytes, or reject.',
    level_note=_NOTE),
 
  'C01': dict(engine='pbt', design_ref='DESIGN.md 5/C01',
    technique='property-based round-trip testing over typed models (save -> load -> deep equality, load-save-load fixed point)',
-   level_text='~3*10^4 generated (type, value, archive, position, configuration) round trips per quick run over 87 model types instantiating the library own serializers, under ASan/UBSan: the loaded value must equal the saved one bit for bit, neighbouring members must be intact, re-saving must be a fixed point (byte-identical for MsgPack); a save may only fail with an exception. Exploration: the value space is sampled with boundary-biased generators.',
+   level_text='~3*10^4 generated (type, value, archive, position, configuration) round trips per quick run over 96 model types instantiating the library own serializers, under ASan/UBSan: the loaded value must equal the saved one bit for bit, neighbouring members must be intact, re-saving must be a fixed point (byte-identical for MsgPack); a save may only fail with an exception. Exploration: the value space is sampled with boundary-biased generators.',
    level_note=_NOTE + ' Five recorded findings narrow the XML/CSV/JSON domains; each has a witness run on every check.'),
  'C18': dict(engine='pbt', design_ref='DESIGN.md 5/C18',
    technique='metamorphic property-based testing: load(doc, into=populated B) == load(doc, into=fresh) == saved value; MapLoadMode model',
@@ -85,12 +85,12 @@ TEXT = {
 
  'C14': dict(engine='sweep+pbt', design_ref='DESIGN.md 5/C14',
    technique='exhaustive calendar sweep + property-based testing vs independent calendar reference (Rata-Die, __int128)',
-   level_text='Every day of a 30,000-year range is printed in seven precisions and two representation widths, compared character by character with an independent calendar and parsed back; every second of the leap/century/epoch boundary days likewise; ~3*10^5 generated extreme and random instants and durations per quick run are printed, compared, parsed back (also from UTF-16/32 text), read by an independent ISO-8601 duration reader and passed through the MsgPack timestamp, under ASan/UBSan.',
+   level_text='Every day of a 30,000-year range is printed in seven precisions and two representation widths, compared character by character with an independent calendar and parsed back; every second of the leap/century/epoch boundary days likewise; ~3*10^5 generated extreme and random instants and durations per quick run are printed, compared, parsed back (also from UTF-16/32 text), read by an independent ISO-8601 duration reader and passed through the MsgPack timestamp (time_t also through JSON, XML and CSV), under ASan/UBSan.',
    level_note=_NOTE + ' Two recorded findings (KF-27, KF-33) narrow the time-point domain at the extreme ends of 64-bit ranges; both are witnessed on every run.'),
 
  'C16': dict(engine='sweep+pbt', design_ref='DESIGN.md 5/C16',
    technique='exhaustive sweep + grammar-based property testing vs independent numeric reference (glibc strto*, __int128)',
-   level_text='Every 8/16-bit integer and (thorough) every one of the 2^32 float bit patterns is printed, checked for bit-exact round trip through glibc and the library, for minimal digit count and length; boundary/random 32/64-bit integers and doubles likewise; ~5*10^5 literal-grammar strings per quick run are parsed into 10 integer types, float and double and compared with the reference outcome (value / invalid_argument / out_of_range) in four string widths.',
+   level_text='Every 8/16-bit integer and (thorough) every one of the 2^32 float bit patterns is printed, checked for bit-exact round trip through glibc and the library, for minimal digit count and length; boundary/random 32/64-bit integers and doubles likewise; ~5*10^5 literal-grammar strings per quick run are parsed into 10 integer types, float and double and compared with the reference outcome (value / invalid_argument / out_of_range) in four string widths, incl. non-ASCII and ill-formed code units and views into larger buffers.',
    level_note=_NOTE),
 
  'C12': dict(engine='sweep+pbt', design_ref='DESIGN.md 5/C12',
@@ -100,6 +100,6 @@ TEXT = {
 
  'C11': dict(engine='sweep+pbt', design_ref='DESIGN.md 5/C11',
    technique='exhaustive sweep + property-based testing vs independent UTF reference (ref_utf)',
-   level_text='Exhaustive over the finite domain the quantifier names (every Unicode scalar value through every direct encoder operation, both policies, empty and non-empty outputs) plus ~10^5 generated mixed-plane sequences up to 4096 code points per run, all compared with an independent encoder/decoder. Exploration is the right level: the per-scalar domain is closed completely, sequences are sampled.',
+   level_text='Exhaustive over the finite domain the quantifier names (every Unicode scalar value through every direct encoder operation, both policies, empty and non-empty outputs) plus ~10^5 generated mixed-plane sequences up to 4096 code points per run (also supplied as pointers, list / deque iterators and single-pass input ranges), all compared with an independent encoder/decoder. Exploration is the right level: the per-scalar domain is closed completely, sequences are sampled.',
    level_note=_NOTE),
 }
